@@ -15,6 +15,10 @@ for f in sorted(glob.glob('/verif/evidence/*.json')):
     e=json.load(open(f)); jsonschema.validate(e,s)
     c=e['coverage']
     assert c['obligations']==c['discharged'], (f,c['obligations'],c['discharged'])
+    # a claimed obligation that is not generated any more on the unchanged tree = stale baseline (clauses were
+    # inserted into a shared contract): rebaseline that property before committing
+    assert not c.get('missing_from_tree'), (f, 'stale baseline', c['missing_from_tree'][:5])
+    assert not c.get('function_errors'), (f, 'function errors', c['function_errors'][:3])
 print("evidence files valid")
 PY
 exit $rc
